@@ -148,6 +148,8 @@ theorem quotient_iface (hS : SimpSelects P) (c c1 q : Contract T) (addl : List V
   split at h; · cases h
   split at h; · cases h
   split at h; · cases h
+  split at h; · cases h
+  split at h; · cases h
   obtain ⟨hwf, hi, ho, _⟩ := mkContract_ok_wf vars P hS _ _ _ _ _ _ h
   refine ⟨hwf, ?_, ?_⟩
   · intro x; rw [hi]; simp only [Gen.quotient_iface, Gen.mem_list_diff, Gen.mem_list_union]; tauto
